@@ -215,8 +215,72 @@ def helper_streams(run, text: str, opts, ref: list, data: Any, label: str, engin
             return
 
 
+def helper_entry_points(run, text: str, opts, ref: list, engine: str) -> None:
+    """expect(), block() and IterTokenizer against what the token trace says they have to do."""
+    from srctools.tokenizer import Tokenizer, IterTokenizer, Token, TokenSyntaxError
+    if any(r and r[0] in ('ERR', 'BAD-EXC', 'NO-EOF') for r in ref):
+        return
+    toks = [(t, v) for t, v, _ in ref]
+    upto = next((i for i, r in enumerate(toks) if r[0] is Token.EOF), len(toks))
+    stream = toks[:upto]
+    case = {'text': text, 'opts': _optbits(opts)}
+
+    def bad(what: str, witness: Any) -> None:
+        run.violation(what, witness=witness, case=case, engine=engine, key='helper-entry-point-differs')
+    run.count('helper_entry_points_checked')
+    # IterTokenizer over the very same tokens: the same stream, then EOF for ever
+    it = IterTokenizer(iter(stream))
+    got = [it() for _ in range(len(stream) + 3)]
+    if got != stream + [(Token.EOF, '')] * 3:
+        bad('IterTokenizer over the token stream does not reproduce it followed by endless EOF', {'got': _show(got)[:12]})
+    # expect(): the first token that is not a newline, or an error naming it
+    first = next((tv for tv in stream if tv[0] is not Token.NEWLINE), (Token.EOF, ''))
+    for want_tok in {first[0], Token.BRACE_OPEN}:
+        tk = Tokenizer(text, **opts)
+        try:
+            val = tk.expect(want_tok)
+            if want_tok is not first[0] or val != first[1]:
+                bad(f'expect({want_tok.name}) returned {val!r}; the first token after the newlines is {first[0].name} {first[1]!r}', None)
+        except TokenSyntaxError:
+            if want_tok is first[0]:
+                bad(f'expect({want_tok.name}) raised although the first token after the newlines is that token', None)
+        except Exception as exc:
+            bad(f'expect({want_tok.name}) raised {type(exc).__name__}: {exc}', None)
+    # block(): with the brace already consumed it yields the strings up to the matching close, errors on anything else
+    if first[0] is Token.BRACE_OPEN:
+        body = stream[stream.index(first) + 1:]
+        want_vals: list = []
+        outcome = 'unclosed'
+        for t, v in body:
+            if t is Token.BRACE_CLOSE:
+                outcome = 'closed'
+                break
+            if t is Token.STRING:
+                want_vals.append(v)
+            elif t is not Token.NEWLINE:
+                outcome = 'error'
+                break
+        tk = Tokenizer(text, **opts)
+        got_vals: list = []
+        try:
+            for v in tk.block('test'):
+                got_vals.append(v)
+                if len(got_vals) > len(text) + 4:
+                    break
+            got_outcome = 'closed'
+        except TokenSyntaxError:
+            got_outcome = 'raised'
+        except Exception as exc:
+            got_outcome = f'{type(exc).__name__}'
+        if got_vals != want_vals or (got_outcome == 'closed') != (outcome == 'closed') or got_outcome not in ('closed', 'raised'):
+            bad(f'block() yielded {got_vals!r} and {got_outcome}; the tokens say {want_vals!r} and {outcome}', None)
+        run.count('block_helper_runs')
+
+
 def compare_deliveries(run, text: str, opts, ref: list, deliveries: List[Tuple[str, Any]], engine: str) -> None:
     _HELPER_CALLS[0] += 1
+    if _HELPER_CALLS[0] % 16 == 8:
+        helper_entry_points(run, text, opts, ref, engine)
     if _HELPER_CALLS[0] % 16 == 0 and deliveries:
         lab, dat = deliveries[_HELPER_CALLS[0] // 16 % len(deliveries)]
         helper_streams(run, text, opts, ref, text if hasattr(dat, 'seek') else dat, lab, engine)
@@ -565,7 +629,7 @@ def main(run, shard=(0, 1)) -> None:
     long_runs(run, shard, thorough)
     run.sample({'text': '"a\r', 'chunks': ['"a', '\r'], 'opts': '0010000'}, 'exhaustive')
     probe.check_reached(run)
-    run.require('lookahead_traces', 'helper_streams_compared', 'long_run_texts', 'real_file_deliveries', 'exhaustive_text_x_options', 'focused_text_x_options', 'deliveries_compared', 'kv_parse_calls', 'kv_exhaustive_texts_x_options')
+    run.require('lookahead_traces', 'helper_streams_compared', 'helper_entry_points_checked', 'block_helper_runs', 'long_run_texts', 'real_file_deliveries', 'exhaustive_text_x_options', 'focused_text_x_options', 'deliveries_compared', 'kv_parse_calls', 'kv_exhaustive_texts_x_options')
 
 
 def replay(run, data) -> None:
